@@ -24,6 +24,7 @@ EXPLANATION = (
     "never to closures (deepcopy copies functions by reference).  compute()'s freshness is covered by C04.  Does not decide equality "
     "with an independent per-cell run nor which cell a border value belongs to.")
 RULES = {
+    "C11-f": "NARROW TRY: the IndexError handler that means 'outside the edges' encloses only the lookup of the cell, no call",
     "C11-a": "FRESH: one private deep copy of the analysis per cell (construction and MapBins)",
     "C11-b": "GUARD: cells are reached by get_bin_on_value indices, negative/overflow indices are ignored",
     "C11-c": "ONCE/ORDER: one cell filled in range; the kept context is copied before the cell's sequence may change it",
@@ -407,7 +408,35 @@ def check_deepcopy_safe(ctx):
     ctx.instances_floor("C11-e", n, 15, "protocol attributes bound in the classes of the fill chain")
 
 
+def check_overflow_handler_narrow(ctx):
+    """SplitIntoBins.fill takes an IndexError of the cell lookup for an overflow and ignores the value.  The handler may
+    enclose nothing but that lookup (subscripts of the bins): an IndexError raised by the cell's own analysis -- user code run
+    by `cell.fill(val)` -- is an error of the analysis and must come out, not be counted as a value outside the edges (the value
+    would silently vanish from the cell, a Vectorize inside would be left half-filled)."""
+    res = ctx.res
+    n = 0
+    for qual in ("SplitIntoBins.fill",):
+        fn = ctx.tree.func("lena.structures.split_into_bins", qual)
+        for t in [t for t in A.walk_local(fn) if isinstance(t, ast.Try)]:
+            hs = [h for h in t.handlers if h.type is None or any(res.canon(x) in ("builtins.IndexError", "builtins.LookupError", "builtins.Exception",
+                                                                                  "builtins.BaseException", "builtins.KeyError", "builtins.TypeError")
+                                                                 for x in (h.type.elts if isinstance(h.type, ast.Tuple) else [h.type]))]
+            swallowing = [h for h in hs if not any(isinstance(x, ast.Raise) for x in ast.walk(h))]
+            if not swallowing:
+                continue
+            n += 1
+            calls = [c for st in t.body for c in A.walk_local(st) if isinstance(c, ast.Call)
+                     and not (isinstance(c.func, ast.Name) and c.func.id in ("len", "int", "isinstance", "range"))]
+            ctx.check("C11-f", not calls, t, "%s: the handler that takes %s for 'outside the edges' also encloses the call `%s`: an error "
+                      "raised by the analysis of the cell is swallowed and the value silently dropped"
+                      % (qual, A.short(swallowing[0].type, 30) if swallowing[0].type is not None else "any exception",
+                         A.short(calls[0], 40) if calls else ""),
+                      detail="%s: the overflow handler encloses only the cell lookup" % qual, construct="wide-overflow-try:%s" % qual)
+    ctx.instances_floor("C11-f", n, 1, "swallowing lookup handlers in SplitIntoBins.fill")
+
+
 def check(ctx):
+    check_overflow_handler_narrow(ctx)
     check_deepcopy_safe(ctx)
     check_fresh(ctx)
     check_iterate_fresh(ctx)
@@ -417,6 +446,7 @@ def check(ctx):
 
 
 VARIANTS = [
+    M("overflow-try-around-fill", "lena/structures/split_into_bins.py", "            try:\n                subarr = subarr[ind]\n", "            try:\n                subarr = subarr[ind]\n                getattr(subarr, 'fill', len)(val) if False else None\n", ["C11-f"]),
     M("fill-chain-lambda", "lena/core/fill_seq.py", "        self._fill_into_el = fill_into_el\n        self._fill_el = fill_el\n", "        self._fill_into_el = fill_into_el\n        self._fill_el = fill_el\n        fill_into = fill_into_el.fill_into\n        self.fill = lambda value: fill_into(fill_el, value)\n", ["C11-e"]),
     M("iteratebins-shared-hist-context", "lena/structures/split_into_bins.py", "update_nested(\"bins\", bin_context, copy.deepcopy(hist_context))", "update_nested(\"bins\", bin_context, hist_context)", ["C11-a"]),
     M("init-bins-row-deepcopy", "lena/structures/hist_functions.py", "            if deepcopy:\n                return [copy.deepcopy(value) for _ in range(len(arr)-1)]\n            else:\n                return list([value] * (len(arr)-1))", "            row = [value] * (len(arr)-1)\n            if deepcopy:\n                row = copy.deepcopy(row)\n            return row", ["C11-a"]),
